@@ -593,6 +593,7 @@ impl Ctx {
         if let Some(c) = &self.capped {
             cov.put("cap_reached", J::s(c.clone()));
         }
+        cov.put("expected_outcome_classes_missing", J::Arr(self.vacuity.iter().map(|m| J::s(m.clone())).collect()));
         cov.put(
             "known_findings_seen",
             J::Arr(known_v.iter().map(|(v, _)| J::obj().set("key", J::s(v.key.clone())).set("occurrences", J::u(v.count)).set("witness", J::s(v.case.clone()))).collect()),
@@ -640,10 +641,19 @@ impl Ctx {
             println!("KNOWN-FINDING: property={} key={} {} (witness: {}; {} occurrences)", self.prop, v.key, text, v.case, v.count);
         }
         if !self.vacuity.is_empty() && new_v.is_empty() {
+            // An outcome class this check expects to see (e.g. "some SR packet was accepted") did not occur. On the
+            // unchanged tree that would mean a broken generator, and VERIF_STRICT_VACUITY=1 (set by setup.sh's
+            // self-test run) makes it a machinery failure. On a modified tree it can be the modification's doing
+            // without this property being violated (a parser that now refuses everything still satisfies a
+            // one-directional "accepted only if ..." property): the property held on everything explored, so the
+            // verdict stays 0 and the thin coverage is reported here and in the evidence file.
             for m in &self.vacuity {
-                eprintln!("MACHINERY-FAILURE: vacuous exploration: {}", m);
+                println!("THIN-COVERAGE: an expected outcome class did not occur: {}", m);
             }
-            return 2;
+            if std::env::var("VERIF_STRICT_VACUITY").map(|v| v == "1").unwrap_or(false) {
+                eprintln!("MACHINERY-FAILURE: vacuous exploration (VERIF_STRICT_VACUITY=1)");
+                return 2;
+            }
         }
         if self.total.states == 0 || self.total.transitions == 0 {
             eprintln!("MACHINERY-FAILURE: nothing was explored");
